@@ -43,9 +43,12 @@ McCheck(decls, mc, itf) ==
   ELSE LET ce == FirstEventNamed(itf, mc.claim)
            en == Resolve(decls, ce.reply, itf.fqn, {"enum"}) IN
        IF en.r # "ok" THEN Err("mc-reply-not-enum", "MultiClientCfgError")
-       ELSE IF mc.grant[1] \notin {decls[en.i].fields[k] : k \in DOMAIN decls[en.i].fields}
+       ELSE IF mc.grant = <<>> \/ mc.grant[1] \notin {decls[en.i].fields[k] : k \in DOMAIN decls[en.i].fields}
             THEN Err("mc-grant-value", "MultiClientCfgError")
        ELSE IF EventNamed(itf, mc.release) = {} THEN Err("mc-release-event", "MultiClientCfgError")
+       \* the release event is what a client calls to give the claim back: an in-event other than the claim event
+       ELSE IF FirstEventNamed(itf, mc.release).dir # "in" \/ mc.release = mc.claim
+            THEN Err("mc-release-event", "MultiClientCfgError")
        ELSE NoErr
 
 \* the first error create_dzn_elements runs into, ports in declaration order
@@ -198,6 +201,8 @@ WiringOf(decls, cfg) ==
 \* configuration objects are validated when they are constructed, before build is ever called
 ConfigRejected(cfg) == PSCRejected(cfg.prov.sts, cfg.prov.mts) \/ PSCRejected(cfg.req.sts, cfg.req.mts)
                        \/ CfgRejected(cfg.prov)
+                       \* MultiClientPortCfg refuses empty settings
+                       \/ (cfg.mc.on /\ (cfg.mc.port = "" \/ cfg.mc.claim = "" \/ cfg.mc.grant = <<>> \/ cfg.mc.release = ""))
 
 \* names of the eight files of a successful build
 PrefixStr(prefix) == prefix \o <<"Dzn">>
